@@ -214,7 +214,16 @@ class Run:
                 resolved = ("append", op[1])
                 v = META_VALUES[self.k % len(META_VALUES)]          # the API code may be int / float / str, falsy values included
                 m_insert(m, len(m), {"orig": nm, "unit": "u%d" % self.k, "value": v, "descr": "d%d" % self.k, "data": a.copy()}, self.norm)
-                las.append_curve(nm, a, unit="u%d" % self.k, descr="d%d" % self.k, value=v)
+                arg = a
+                if self.k % 4 == 1:
+                    arg = a.tolist()                      # data given as a list ...
+                elif self.k % 4 == 2:
+                    arg = tuple(a.tolist())               # ... a tuple ...
+                elif self.k % 4 == 3:
+                    big = np.zeros(2 * len(a))
+                    big[::2] = a
+                    arg = big[::2]                        # ... or a strided view
+                las.append_curve(nm, arg, unit="u%d" % self.k, descr="d%d" % self.k, value=v)
             elif kind == "insert":
                 ix, nm, a = self.pos(op[1], n), self.name(op[2]), self.arr()
                 resolved = ("insert", _cls(ix, n), op[2])
@@ -375,7 +384,12 @@ class Run:
                 elif names is None and not truncate and self.k % 2:
                     las.data = A.copy()          # the property setter is documented as equivalent to set_data(array)
                 else:
-                    las.set_data(A.copy(), names=list(names) if names is not None else None, truncate=truncate)
+                    arg = A.copy()
+                    if self.k % 3 == 0 and A.size:
+                        arg = A.tolist()                   # array-likes: a list of rows ...
+                    elif self.k % 3 == 1 and A.size:
+                        arg = np.asfortranarray(A)[:, :]   # ... or a non-C-contiguous array
+                    las.set_data(arg, names=list(names) if names is not None else None, truncate=truncate)
             elif kind == "inplace":
                 if n == 0:
                     return None, False, None
@@ -511,7 +525,7 @@ class Run:
                     want = np.column_stack([c["data"] for c in m])
                     if D.shape != want.shape or not np.array_equal(D, want, equal_nan=True):
                         V("data-view", "data has shape %r / differs from the model's columns (%r) %s" % (D.shape, want.shape, tag))
-        for i in range(-n, n):
+        for i in list(range(-n, n)) + ([np.int64(0), np.intp(n - 1), np.int32(-1)] if n else []):       # numpy integers are integer positions too
             try:
                 ok = las[i] is items[i].data
             except Exception as e:
